@@ -34,3 +34,17 @@ func verif_harness_C16_flag_parsers_bytes() {
 	}
 	verif_reach("done")
 }
+
+// C16 — the -rate parser alone on longer values (a count, a slash and a
+// duration need four bytes at least: "1/0s").
+//
+//verif:harness param.L=3..4 thorough.param.L=5..6 unwind=48 deadline=1500 thorough.deadline=7000
+func verif_harness_C16_rate_parser_bytes() {
+	b := verif_nondet_bytes("v", verif_param("L"))
+	for _, c := range b {
+		verif_assume(c < 0x80)
+	}
+	r := vegeta.Rate{Freq: 50, Per: time.Second}
+	_ = (&rateFlag{&r}).Set(string(b))
+	verif_reach("done")
+}
